@@ -598,14 +598,6 @@ func init() {
 		"strconv.ParseFloat": func(e *Engine, caller *frame, fn *ssa.Function, args []Value) Value {
 			return e.parseFloat(fn, args[0].(Str), concreteIntArg(e, args[1], "bitSize"))
 		},
-		"strconv.FormatFloat": func(e *Engine, caller *frame, fn *ssa.Function, args []Value) Value {
-			x := args[0].(*Term)
-			if x.IsConst() {
-				return Str{s: strconv.FormatFloat(x.F64(), byte(concreteIntArg(e, args[1], "fmt")), int(concreteIntArg(e, args[2], "prec")), int(concreteIntArg(e, args[3], "bitSize")))}
-			}
-			e.unsupported("strconv.FormatFloat of a symbolic value")
-			return nil
-		},
 	}
 	registerMoreIntrinsics()
 }
